@@ -15,6 +15,7 @@ import (
 	"github.com/oasisprotocol/oasis-core/go/common/cbor"
 	"github.com/oasisprotocol/oasis-core/go/common/errors"
 	"github.com/oasisprotocol/oasis-core/go/common/logging"
+	"github.com/oasisprotocol/oasis-core/go/common/verifhook"
 	"github.com/oasisprotocol/oasis-core/go/common/version"
 	"github.com/oasisprotocol/oasis-core/go/oasis-node/cmd/common/metrics"
 )
@@ -418,6 +419,7 @@ func (c *connection) workerIncoming() {
 	ctx, cancel := context.WithCancel(context.Background())
 	defer cancel()
 
+	defer verifhook.At("protocol.workerIncoming.closed")
 	defer func() {
 		// Close connection and signal that connection is closed.
 		_ = c.conn.Close()
@@ -517,6 +519,7 @@ func (c *connection) InitHost(ctx context.Context, conn net.Conn, hi *HostInfo) 
 	c.logger.Info("runtime host protocol initialized", "runtime_version", rtVersion)
 
 	// Transition the protocol state to Ready.
+	verifhook.At("protocol.InitHost.beforeReady")
 	c.Lock()
 	c.setStateLocked(stateReady)
 	c.info = info
